@@ -31,7 +31,8 @@ InfCost == 1000       \* "not callable"
 
 Slots == 1..NSlot
 Mocks == 0..(NMock - 1)
-Fns   == 1..4
+Fns   == 1..7      \* 1 f(int), 2 f(string), 3 g(int,int) const, 4 void v(int), 5 z() (no parameter), 6 h(int,int,int), 7 std::string q(int)
+ArgsOf(f, a, b) == CASE f = 3 -> <<a, b>> [] f = 5 -> <<>> [] f = 6 -> <<a, b, b>> [] OTHER -> <<a>>
 Seqs  == 1..NSeq
 Objs  == 1..NObj
 Mons  == 1..NMon
@@ -101,7 +102,8 @@ IsFirst(st, q, h) == st.pend[q] # <<>> /\ st.pend[q][1] = h
 
 (* ---- matching and selection (find(), mock.hpp:2306) ---- *)
 ParamsOk(x, args) == \A i \in 1..Len(x.pt) : Accepts(x.pt[i], args[i])
-WithsOk(x, args)  == \A k \in 1..Len(x.wt) : Accepts(x.wt[k], args[1])
+WArg(args) == IF args = <<>> THEN 0 ELSE args[1]       \* the conditions of a function without parameters are evaluated on 0
+WithsOk(x, args)  == \A k \in 1..Len(x.wt) : Accepts(x.wt[k], WArg(args))
 Matches(st, e, args) == ParamsOk(st.exp[e], args) /\ WithsOk(st.exp[e], args)
 
 Find(st, m, f, args) ==
@@ -130,7 +132,7 @@ FailMask(x, args) ==
   LET bits == [i \in 1..2 |-> IF i <= Len(x.pt) /\ ~Accepts(x.pt[i], args[i]) THEN (IF i = 1 THEN 1 ELSE 2) ELSE 0]
   IN  bits[1] + bits[2]
 FirstFailWith(x, args) ==
-  LET ks == {k \in 1..Len(x.wt) : ~Accepts(x.wt[k], args[1])}
+  LET ks == {k \in 1..Len(x.wt) : ~Accepts(x.wt[k], WArg(args))}
   IN  IF ks = {} THEN 0 ELSE 10 + Min(ks)
 TriedDet(st, e, args) ==
   LET x == st.exp[e] IN IF ParamsOk(x, args) THEN FirstFailWith(x, args) ELSE FailMask(x, args)
@@ -164,7 +166,7 @@ RunEffects(st1, x, c, depth) ==
              IN  IF b = 1 THEN [r1 EXCEPT !.stop = "throw", !.thr = "se", !.thrv = c * 10 + k]
                  ELSE IF b = 2 THEN [r1 EXCEPT !.stop = "throw", !.thr = "int", !.thrv = 7]
                  ELSE IF b = 3 /\ depth = 0 /\ x.nest[1] \in Mocks /\ x.nest[2] \in Fns /\ r1.st.malive[x.nest[1]]
-                 THEN LET nargs == IF x.nest[2] = 3 THEN <<x.nest[3], x.nest[4]>> ELSE <<x.nest[3]>>
+                 THEN LET nargs == ArgsOf(x.nest[2], x.nest[3], x.nest[4])
                           inner == CallStepD(r1.st, x.nest[1], x.nest[2], nargs, 1)
                           r2 == [r1 EXCEPT !.st = inner.st, !.sr = @ \o inner.obs.sr, !.oks = @ \o inner.obs.oks,
                                            !.trs = @ \o (IF inner.obs.trck THEN inner.obs.trs ELSE <<>>),
@@ -245,7 +247,7 @@ ExpectStep(st, a) ==
           lo  == CASE tab.rtk = 0 -> tab.lo [] tab.rtk = 1 -> a[18] [] tab.rtk = 2 -> a[19] [] tab.rtk = 3 -> a[18] [] OTHER -> 0
           hi  == CASE tab.rtk = 0 -> tab.hi [] tab.rtk = 1 -> a[19] [] tab.rtk = 2 -> a[19] [] tab.rtk = 3 -> 99 [] OTHER -> a[19]
           qs  == SubSeq(<<a[20], a[21]>>, 1, tab.nq)
-          pt0 == SubSeq(<<<<a[4], a[5]>>, <<a[6], a[7]>>>>, 1, tab.npar)
+          pt0 == SubSeq(<<<<a[4], a[5]>>, <<a[6], a[7]>>, <<0, 0>>>>, 1, tab.npar)
           pt  == CASE tab.pm = 0 -> pt0
                    [] tab.pm = 2 -> <<<<1, 1>>>>
                    [] OTHER      -> <<<<0, 0>>>>
@@ -457,7 +459,7 @@ Step(st, ev) ==
     [] ev.e = "swatch"  -> LET r == WatchStep(st, a) IN
                            IF r.obs.skip = 1 THEN r ELSE [st |-> [r.st EXCEPT !.mon[a[1]].scoped = TRUE], obs |-> r.obs]
     [] ev.e = "call"    -> IF a[1] \in Mocks /\ a[2] \in Fns /\ st.malive[a[1]] /\ (~(a[1] \in {NonMovableMock, WatchedMock}) \/ a[2] = 1)
-                           THEN CallStep(st, a[1], a[2], IF a[2] = 3 THEN <<a[3], a[4]>> ELSE <<a[3]>>)
+                           THEN CallStep(st, a[1], a[2], ArgsOf(a[2], a[3], a[4]))
                            ELSE Skip(st)
     [] ev.e = "release" -> ReleaseStep(st, a[1])
     [] ev.e = "dmock"   -> IF a[1] = WatchedMock /\ WatchedMock \in Objs /\ a[1] \in Mocks /\ st.malive[a[1]]
